@@ -407,13 +407,14 @@ def correspond(ctx):
     # accepted case (cheap): keeps the oracle honest and catches a defect
     # that model and implementation would share
     n_or = 0
+    badset = set(bad)
     for i in idx:
         case, run = cases[i], runs[i]
         if run['impl'] is None:
             continue
         f = oracle_compare(case, run)
         n_or += 1
-        if f and i not in bad:
+        if f and i not in badset:
             mism.append(Mismatch('integer oracle disagrees with translator '
                                  'and model: ' + f.what, f.case,
                                  impl=f.got, model=f.expected,
@@ -537,8 +538,12 @@ def shrink(f, case):
     from oracles import fol_eval
     if case['kind'] != 'pred' or case.get('defs'):
         return f
-    subs = sorted({s for _, s in fol_gen._subterms(case['tree'])
-                   if s != case['tree']}, key=fol_ast.size)
+    seen, subs = set(), []
+    for _, s in fol_gen._subterms(case['tree']):
+        if s != case['tree'] and repr(s) not in seen:
+            seen.add(repr(s))
+            subs.append(s)
+    subs.sort(key=fol_ast.size)
     rejected = f.got is not None and str(f.got).startswith('exception')
     for sub in subs[:60]:
         c2 = dict(case, tree=sub, cls=case.get('cls'))
